@@ -49,6 +49,7 @@ type stepResult struct {
 }
 
 type session struct {
+	beforeStop bool // see quiesce
 	genTags  map[string]string // server-made consumer tag ("<unix time>_<id>") -> canonical name, in order of appearance
 	genReal  map[string]string // canonical name -> real tag
 	connBase uint64 // connections opened before the last restart: the new server numbers its connections from 1 again
@@ -207,7 +208,8 @@ func (s *session) restart() string {
 	dl := time.Now().Add(5 * time.Second)
 	for time.Now().Before(dl) {
 		sn, ok := s.snapshot(false)
-		if !ok || (len(sn.Connections) == 0 && sn.Inflight == 0 && sn.Pending == 0 && sn.StorePend == 0) {
+		// the store is not waited for: stopping the broker must write out what is still pending
+		if !ok || (len(sn.Connections) == 0 && sn.Inflight == 0 && sn.Pending == 0) {
 			break
 		}
 		time.Sleep(200 * time.Microsecond)
@@ -273,6 +275,8 @@ func (s *session) snapshot(deep bool) (snap server.VerifSnapshot, ok bool) {
 
 // quiesce waits until the broker has handled everything the clients sent, has nothing in flight,
 // and the clients have received everything the broker wrote. Returns "" or WEDGED/TIMEOUT.
+// beforeStop: the step about to be executed is followed at once by a graceful stop (RESTART): the harness then does
+// not wait for the store's tick, so that the stop finds additions and deletions still pending and has to write them out
 func (s *session) quiesce() string {
 	deadline := time.Now().Add(12 * time.Second)
 	stable := 0
@@ -281,7 +285,7 @@ func (s *session) quiesce() string {
 		if !ok {
 			return "WEDGED(snapshot blocked)"
 		}
-		q := snap.Inflight == 0 && snap.Pending == 0 && snap.StorePend == 0
+		q := snap.Inflight == 0 && snap.Pending == 0 && (snap.StorePend == 0 || s.beforeStop)
 		byID := map[uint64]server.VerifConnSnap{}
 		for _, cs := range snap.Connections {
 			byID[cs.ID+s.connBase] = cs
@@ -327,7 +331,7 @@ func (s *session) quiesce() string {
 		if q {
 			stable++
 			if stable >= 3 {
-				if s.settle > 0 {
+				if s.settle > 0 && !s.beforeStop {
 					time.Sleep(s.settle)
 				}
 				return ""
